@@ -176,6 +176,74 @@ Proof.
   exists {| c_min := 1; c_max := 1; c_errkill := 3 |}, (burst 2). vm_compute. auto.
 Qed.
 
+
+(* the general shape of the refutation: k forks requested and started while
+   nothing is tracked yet all pass the gates (Max >= 1) and all insert *)
+Lemma fork_events_keep_empty : forall fx c s e,
+  s_workers s = [] -> (0 <? c_max c)%N = true ->
+  (e = EForkReq \/ exists k, e = EForking k) ->
+  s_workers (fst (step fx c s e)) = [].
+Proof.
+  intros fx c s e W M [->|[k ->]]; unfold step, gate, tracked; rewrite W; cbn [length N.of_nat];
+    rewrite M; cbn; exact W.
+Qed.
+
+Lemma burst_requests : forall fx c l s,
+  s_workers s = [] -> (0 <? c_max c)%N = true ->
+  s_workers (run_from fx c s (flat_map (fun i => [EForkReq; EForking i]) l)) = [].
+Proof.
+  induction l as [|i r IH]; intros s W M; [exact W|].
+  cbn [flat_map app]. unfold run_from. cbn [fold_left].
+  fold (run_from fx c (fst (step fx c (fst (step fx c s EForkReq)) (EForking i)))
+                 (flat_map (fun i => [EForkReq; EForking i]) r)).
+  apply IH; auto.
+  apply fork_events_keep_empty; eauto.
+  apply fork_events_keep_empty; eauto.
+Qed.
+
+Lemma wfind_wset_other : forall k k' v l, k <> k' -> wfind k (wset k' v l) = wfind k l.
+Proof.
+  induction l as [|[k2 j] r IH]; intros H; cbn.
+  - destruct (Nat.eqb k k') eqn:E; [apply Nat.eqb_eq in E; contradiction|reflexivity].
+  - destruct (Nat.eqb k' k2) eqn:E2; cbn.
+    + apply Nat.eqb_eq in E2. subst k2.
+      destruct (Nat.eqb k k') eqn:E; [apply Nat.eqb_eq in E; contradiction|reflexivity].
+    + destruct (Nat.eqb k k2); [reflexivity|]. apply IH. exact H.
+Qed.
+
+Lemma burst_inserts : forall c l s,
+  NoDup l -> (forall k, In k l -> wfind k (s_workers s) = None) ->
+  length (s_workers (run_from no_fixes c s (map ESetIns l))) = length (s_workers s) + length l.
+Proof.
+  induction l as [|k r IH]; intros s ND F; [cbn; lia|].
+  inversion ND as [|? ? Hn ND']; subst.
+  cbn [map]. unfold run_from. cbn [fold_left].
+  fold (run_from no_fixes c (fst (step no_fixes c s (ESetIns k))) (map ESetIns r)).
+  assert (E : s_workers (fst (step no_fixes c s (ESetIns k))) = wset k fresh_info (s_workers s)).
+  { unfold step. cbn. reflexivity. }
+  rewrite IH; auto.
+  - rewrite E. rewrite wset_len_none by (apply F; left; reflexivity). cbn [length]. lia.
+  - intros k' Hk'. rewrite E. rewrite wfind_wset_other.
+    + apply F. right. exact Hk'.
+    + intro; subst. contradiction.
+Qed.
+
+Lemma bound_refuted_burst_lemma : forall c k,
+  (0 < c_max c)%N ->
+  tracked (run no_fixes c (burst k)) = N.of_nat k.
+Proof.
+  intros c k M. unfold run, burst, run_from. rewrite fold_left_app.
+  fold (run_from no_fixes c init_st (flat_map (fun i => [EForkReq; EForking i]) (seq 1 k))).
+  set (s1 := run_from no_fixes c init_st (flat_map (fun i => [EForkReq; EForking i]) (seq 1 k))).
+  assert (W : s_workers s1 = []).
+  { apply burst_requests; [reflexivity|]. apply N.ltb_lt. exact M. }
+  fold (run_from no_fixes c s1 (map ESetIns (seq 1 k))).
+  unfold tracked. rewrite burst_inserts.
+  - rewrite W, seq_length. cbn. reflexivity.
+  - apply seq_NoDup.
+  - intros. rewrite W. reflexivity.
+Qed.
+
 (* ------------------------------------------------------------ the bound with the insert gate *)
 
 Definition fixed : fixes := insert_gate_fix.
